@@ -7,7 +7,7 @@
     chain) must each be rejected.
  G  the same module (Mode="gen") enumerates the fault space over the corpus bases (every shipped sample +
     synthetic valid files of every format): every truncation length class, every field of every header table x
-    every value class, seeded flips and random strings, and - by simulation - sequences of several faults; each
+    every value class, seeded flips and random strings, and pairs of faults over a strided sub-space; each
     descriptor carries the reference truth the chain must respect. harness/c20child.py concretises it and
     runs the real read_program under a CPU-time limit and RLIMIT_AS, recording the chain from read_program's own
     log lines.
@@ -28,7 +28,7 @@ from harness import framework, tlc, c20
 # (stage, innermost frame of the stage's module) and REPS of each group are re-run alone under L2.  Only an input
 # that does not finish under L2 - or that shares its group with REPS such inputs - is reported as a timeout.  L2 is
 # far above the slowest *bounded* parse seen (65535-entry header tables: ~6 s of CPU on a loaded machine).
-L1 = {"quick": 2.5, "thorough": 4.0}
+L1 = {"quick": 4.0, "thorough": 4.0}
 L2 = {"quick": 25.0, "thorough": 60.0}
 REPS = {"quick": 1, "thorough": 2}
 FAULTS = (("NarrowExcept", "InvTotal"), ("NoSeek", "InvNoMisclaim"), ("ForeignParser", "InvOwnErrorsOnly"),
@@ -63,7 +63,7 @@ def model_check(ctx):
 
 
 # ---------------------------------------------------------------------------------------------------------
-def generate(ctx, wd, bases, name, params, simulate=None, depth=None):
+def generate(ctx, wd, bases, name, params):
     bp = os.path.join(wd, "bases.ndjson")
     if not os.path.exists(bp):
         c20.write_bases_for_tlc(bases, bp)
@@ -71,11 +71,11 @@ def generate(ctx, wd, bases, name, params, simulate=None, depth=None):
     tlc.write_ndjson(pp, [params])
     spool = os.path.join(wd, "cases_%s.spool" % name)
     res = tlc.run("Ident", "IdentGen.cfg", env={"IDENT_BASES": bp, "IDENT_PARAMS": pp}, spool=spool,
-                  simulate=simulate, depth=depth, seed=ctx.seed if simulate else None, tag="c20gen" + name,
+                  tag="c20gen" + name,
                   timeout=3000)
     ctx.add_tlc(res, "G:IdentGen.cfg:" + name)
     cases = list(tlc.iter_spool(spool))
-    if simulate is None and params["minfaults"] == 0 and len(cases) != res.distinct - (1 if 0 in params["sel"] else 0):
+    if params["minfaults"] == 0 and len(cases) != res.distinct - (1 if 0 in params["sel"] else 0):
         raise tlc.MachineryError("generator %s: %d descriptors read, TLC reports %d states" % (name, len(cases),
                                                                                               res.distinct))
     if not cases:
@@ -188,7 +188,7 @@ def execute(ctx, wd, cases, nproc):
 def validate(ctx, wd, bodies, tag):
     """bodies: list of (truth, events) distinct; -> verdicts in the same order (TLC decides)"""
     traces = [{"t": i + 1, "truth": tr, "ev": list(ev)} for i, (tr, ev) in enumerate(bodies)]
-    shards = tlc.shard(traces, 4)
+    shards = tlc.shard(traces, max(1, min(4, len(traces) // 400)))
     paths = []
     for i, sh in enumerate(shards):
         p = os.path.join(wd, "%s_%d.ndjson" % (tag, i))
@@ -278,8 +278,8 @@ def judge(ctx, wd, bases, cases, results, source, collector=None):
                 json.dumps(info, sort_keys=True)[:300])
             vk = ctx.extra.setdefault("failing_keys", {})
             vk[key] = vk.get(key, 0) + 1
-            if collector is not None and (key not in collector or (len(case["ops"]), r["len"]) < collector[key][0]):
-                collector[key] = ((len(case["ops"]), r["len"]), case, dict(r, seed=ctx.seed), clause)
+            if collector is not None and (key not in collector or [len(case["ops"]), r["len"]] < list(collector[key][0])):
+                collector[key] = [[len(case["ops"]), r["len"]], case, dict(r, seed=ctx.seed), clause]
             ctx.fail(key, what, {"source": source, "case": case, "seed": ctx.seed, "events": ev, "info": info,
                                  "verdict": v})
     for case, r in list(zip(cases, results))[:2]:
@@ -313,8 +313,8 @@ def params(ctx):
     """generator parameters per tier (see the comment at P in specs/Ident.tla)"""
     quick = ctx.tier == "quick"
     single = {"target": 250 if quick else 0, "bigtarget": 20 if quick else 700, "biglen": 30000, "phase": ctx.seed,
-              "alllen": 500 if quick else 4096, "nflip": 3 if quick else 30, "flipk": 12,
-              "nrand": 3 if quick else 40, "minfaults": 0, "maxfaults": 1}
+              "alllen": 500 if quick else 2048, "nflip": 3 if quick else 12, "flipk": 12,
+              "nrand": 3 if quick else 20, "minfaults": 0, "maxfaults": 1}
     pairs = dict(single, target=7 if quick else 40, bigtarget=3 if quick else 8, alllen=0, nflip=1,
                  flipk=4 if quick else 12, nrand=1, minfaults=2, maxfaults=2)
     return single, pairs
@@ -338,8 +338,14 @@ def campaign(ctx, collector=None, wd=None, bases=None, lap=lambda name: None):
     ctx.count("inputs_single_fault", len(cases))
     # sequences of two faults on the bases of a known format, exhaustive over a strided sub-space
     pairs["sel"] = [b["id"] for b in bases if b["truth"] in c20.FORMATS]
+    fatal = set((c["b"], json.dumps(c["ops"][0], sort_keys=True)) for c, r in zip(cases, results)
+                if len(c["ops"]) == 1 and r["info"]["kind"] == "timeout")
     cases = generate(ctx, wd, bases, "seq", pairs)
     lap("G2:generate")
+    # a pair that contains a fault which alone makes read_program spin adds nothing but CPU time: not run, counted
+    keep = [c for c in cases if not any((c["b"], json.dumps(o, sort_keys=True)) in fatal for o in c["ops"])]
+    ctx.count("pairs_not_run_containing_a_nonterminating_fault", len(cases) - len(keep))
+    cases = keep
     results = execute(ctx, wd, cases, tlc.NCPU)
     lap("G2:execute")
     judge(ctx, wd, bases, cases, results, "seq", collector)
